@@ -76,6 +76,21 @@ def gen_cases(tier, seed):
         case = gen.rand_search_case(rng)
         if rw.is_empty(case["cls"]):
             continue
+        erng = intuniv.rng_for(seed, "C18/empty", i)
+        if erng.random() < 0.04 and case["cls"]["patterns"] and case["cls"].get("right") is None \
+                and not case["cls"].get("flags") and not case["cls"]["just_prefix"]:
+            # an empty start class: the forest database answers with the specification "the root
+            # is empty" (one rule), the others refuse
+            case["cls"]["prefix"] = erng.choice(case["cls"]["patterns"])
+            case["db"] = "forest"
+            case["empty_root"] = True
+        elif erng.random() < 0.25:
+            # the specification is asked for the rule of an empty class that is nobody's child
+            # (it adds such rules on demand) before it is dumped
+            case["ask_empty"] = True
+        if erng.random() < 0.08 and not case["cls"].get("bytes"):
+            # the same universe over a class that shares its name with another module's class
+            case["cls"]["twin"] = True
         if intuniv.rng_for(seed, "C18/searched", i).random() < 0.12:
             # a verification strategy without an enumeration of its own: using the specification
             # makes it search with its pack (anything it remembers then takes part in equality)
@@ -277,6 +292,16 @@ def run_case(case):
     n_max = case["N"]
     for n in range(n_max + 1):
         spec.get_terms(n)  # forces the lazily added empty rules, as any use of the spec does
+    if case.get("empty_root"):
+        cx.count("json.specs_with_empty_root")
+    if type(spec.root).__module__ != words.__name__:
+        cx.count("json.specs_over_a_namesake_class")
+    if case.get("ask_empty") and isinstance(spec.root, words.WC) and spec.root.patterns and spec.root.right is None:
+        stranger = spec.root.with_(prefix=spec.root.prefix + "".join(spec.root.patterns), proper=False,
+                                   just_prefix=False)
+        if stranger.is_empty() and stranger not in spec.rules_dict:
+            spec.get_rule(stranger)
+            cx.count("json.specs_with_rule_for_a_stranger_empty_class")
     spec2 = CombinatorialSpecification.from_dict(rt(spec))
     cx.count("json.specs_round_tripped")
     lazily_empty = any(isinstance(r.strategy, EmptyStrategy) for r in spec.rules_dict.values())
